@@ -6,9 +6,9 @@ package sim
 import (
 	"fmt"
 	"os"
-	"strings"
 	"reflect"
 	"sort"
+	"strings"
 	"time"
 	"unicode/utf8"
 
@@ -92,6 +92,18 @@ type Maps struct {
 	IS   map[int32]string
 	LS   map[int64]string
 	SBin map[string][]byte
+}
+
+// Named container types: a named map type is written as a typed map ('M' type ...), a named slice type as
+// a typed list carrying its own name.
+type Labels map[string]string
+type IDs []int32
+
+type Tagged struct {
+	L Labels
+	I IDs
+	N int32
+	P *K00
 }
 
 // Bag holds untyped containers. It is part of the type/name maps (so that list type names map to
@@ -186,7 +198,7 @@ var kTypes = []reflect.Type{
 
 var bigTypes = []reflect.Type{
 	reflect.TypeOf(Scalars{}), reflect.TypeOf(Node{}), reflect.TypeOf(Emb{}), reflect.TypeOf(Named{}),
-	reflect.TypeOf(Lists{}), reflect.TypeOf(Maps{}), reflect.TypeOf(Wide{}),
+	reflect.TypeOf(Lists{}), reflect.TypeOf(Maps{}), reflect.TypeOf(Wide{}), reflect.TypeOf(Tagged{}),
 }
 
 // ---- type map / name map ---------------------------------------------------------------------
@@ -208,6 +220,7 @@ func witness() interface{} {
 		M  *Maps
 		W  *Wide
 		Bg *Bag
+		Tg *Tagged
 		// struct types must be reachable through typed fields (an interface{} element hides them
 		// from the extraction)
 		K00 *K00
@@ -251,6 +264,7 @@ func witness() interface{} {
 			SB: map[string]bool{"a": true}, SP: map[string]*K02{"a": {1, "x"}}, IS: map[int32]string{1: "a"}, LS: map[int64]string{1: "a"},
 			SBin: map[string][]byte{"a": {1}}},
 		W:  &Wide{S0: "a", S1: "b", N0: n, K: &K05{true, "k"}, M: map[string]int32{"a": 1}, Z: []string{"z"}},
+		Tg: &Tagged{L: Labels{"a": "b"}, I: IDs{1}, N: 1, P: &K00{1, "a"}},
 		Bg: &Bag{Items: []interface{}{int32(1)}, Other: []int32{1}, M: map[string]interface{}{"a": int32(1)}},
 	}
 	fillWitness(reflect.ValueOf(w).Elem())
